@@ -1,8 +1,8 @@
 /-
   C30 (part 1) — every place where the compile path observes the iteration order of a `set` is accounted for.
 
-  `Gen/SetIterSites.lean` is READ from compiler.py, idtracking.py, ext.py, parser.py, nodes.py, meta.py, optimizer.py on
-  every run.  A site passes if the translator could justify it structurally (`sorted`, or `insensitive` with a rule name),
+  `Gen/SetIterSites.lean` is READ from compiler.py, idtracking.py, ext.py, parser.py, nodes.py, meta.py, optimizer.py and from
+  filters.py, tests.py, utils.py (filters and tests run at compile time when constant folding applies) on every run.  A site passes if the translator could justify it structurally (`sorted`, or `insensitive` with a rule name),
   or if it is on the allow-list below.  A NEW unsorted iteration over a set (or a `sorted(` that disappears) is neither,
   and `set_sites_covered` stops checking.
 -/
@@ -17,9 +17,6 @@ inductive Reason where
   | modelled (thm : String)
   /-- justified by a fact the translator re-reads on every run -/
   | fact (holds : Bool) (why : String)
-  /-- KNOWN DEFECT: the site does make the generated source depend on the hash seed; it is listed so that the proof builds on
-      the unchanged tree while any OTHER site still breaks it.  The runner reports it as a (known) finding. -/
-  | knownDefect (finding : String)
   deriving DecidableEq, Repr
 
 structure Allowed where
@@ -41,11 +38,7 @@ def allowList : List Allowed := [
   -- used for lookup only (`self.extensions.get(token.value)`), never iterated — re-read by the translator.  (Two extensions
   -- claiming the same tag are resolved by the *outer*, ordered loop over `iter_extensions()`.)
   ⟨"parser.py", "Parser.__init__", "for", "extension.tags", 1,
-    .fact parserExtensionsLookupOnly "parser.extensions is only subscripted / .get()"⟩,
-  -- ext.py:434 `for name in referenced:` — KNOWN DEFECT (DESIGN §6 F11): free names of a {% trans %} body are added to the
-  -- ordered `variables` dict in set order, and `_make_node` emits keyword arguments / dict pairs in that order.
-  ⟨"ext.py", "InternationalizationExtension.parse", "for", "referenced", 1,
-    .knownDefect "C30:set-iteration:ext.i18n.parse:referenced"⟩]
+    .fact parserExtensionsLookupOnly "parser.extensions is only subscripted / .get()"⟩]
 
 def Allowed.matches (a : Allowed) (s : Site) : Bool :=
   a.file == s.file && a.func == s.func && a.kind == s.kind && a.expr == s.expr
@@ -53,7 +46,6 @@ def Allowed.matches (a : Allowed) (s : Site) : Bool :=
 def Reason.ok : Reason → Bool
   | .modelled _ => true
   | .fact h _ => h
-  | .knownDefect _ => true
 
 def siteCovered (s : Site) : Bool :=
   s.sorted || (s.insensitive && s.why != "") || allowList.any (fun a => a.matches s && a.reason.ok)
